@@ -266,7 +266,12 @@ func (gb *gcpBalancer) initializeConfig(cfg *GCPBalancerConfig) {
 
 func (gb *gcpBalancer) enforceMinSize() {
 	for len(gb.scRefs) < int(gb.cfg.GetChannelPool().GetMinSize()) {
+		before := len(gb.scRefs)
 		gb.addSubConn()
+		if len(gb.scRefs) == before {
+			// NewSubConn failed (e.g. empty address list): do not spin.
+			break
+		}
 	}
 }
 
